@@ -18,22 +18,27 @@ Nd(i) == Log[i]
 RecB(j) == [flag |-> j.flag, valid |-> j.valid, temp |-> j.temp, last |-> j.last, dh |-> j.dh, dbool |-> j.dbool, hasres |-> j.hasres, rate |-> j.rate]
 Pos(nd) == nd.args.rL # <<>>
 
-(* ghost outage clock: age in blocks (capped at the gap) of the FIRST zero sample since the last positive one, -1 when there is none. *)
-(* It is kept by the ghost itself, from the samples and block distances of the behaviour, NOT read from the record's own field:       *)
-(* a record whose stored outage start is wrong must not be able to talk the ghost out of a reset.                                     *)
-RECURSIVE Z(_)
-ZAged(nd) == LET z0 == Z(nd.parent) IN IF z0 < 0 THEN z0 ELSE Min2(z0 + nd.args.dh, nd.args.gap)
-ZStep(z, found, pos) == IF ~found THEN -1 ELSE IF ~pos /\ z < 0 THEN 0 ELSE IF pos /\ z > 0 THEN -1 ELSE z
-Z(i) ==
+(* SHADOW: the specification run along the behaviour from its root, on sign-abstracted samples (1 for a positive sample, 0 for a zero one: *)
+(* only the sign steers the pipeline). The ghost takes every reset decision (outage longer than the gap, band discard, reconfiguration)  *)
+(* from the shadow, never from the recorded record or band state: a record whose stored outage start / stall height is wrong must not    *)
+(* be able to talk the ghost out of (or into) a reset.                                                                                   *)
+Abs(w) == [w EXCEPT !.win = [k \in 1..Len(w.win) |-> 1], !.val = IF w.active THEN 1 ELSE 0]
+Sgn(nd) == IF Pos(nd) THEN 1 ELSE 0
+HasBand(nd) == "preb" \in DOMAIN nd.st
+RECURSIVE Sh(_)
+Sh(i) ==
   LET nd == Nd(i) IN
-  IF nd.a = "Init" THEN (IF nd.st.pre.found THEN nd.st.pre.d ELSE -1)
-  ELSE LET z == ZAged(nd) IN
-       IF nd.st.panic THEN z
-       ELSE IF nd.a = "Cycle" THEN
-            LET b1 == BandHook(Arrive(RecB(nd.st.preb), nd.args.kind, 1), nd.args.gap)
-            IN IF b1.valid /\ b1.hasres THEN ZStep(z, nd.st.pre.found, Pos(nd)) ELSE z
-       ELSE IF nd.a = "Sample" THEN ZStep(z, nd.st.pre.found, Pos(nd))
-       ELSE z
+  IF nd.a = "Init" THEN [b |-> IF HasBand(nd) THEN RecB(nd.st.preb) ELSE B0, w |-> Abs(Rec(nd.st.pre))]
+  ELSE LET p == Sh(nd.parent) n == nd.args.n gap == nd.args.gap IN
+       IF nd.st.panic THEN p
+       ELSE IF nd.a = "Cycle" THEN LET c == Cycle([p.b EXCEPT !.rate = Sgn(nd)], p.w, nd.args.kind, Sgn(nd), n, gap) IN [b |-> c.b, w |-> c.w]
+       ELSE IF nd.a = "Reconfig" THEN [b |-> Reconfig(p.b), w |-> NoRec]
+       ELSE IF nd.a = "Sample" THEN [p EXCEPT !.w = Sample(p.w, Sgn(nd), nd.args.dh, n, gap).w]
+       ELSE IF nd.a = "Invalidate" THEN [p EXCEPT !.w = Invalidate(Age(p.w, nd.args.dh, gap))]
+       ELSE IF nd.a = "GlobalDiscard" THEN [p EXCEPT !.w = GlobalDiscard(Age(p.w, nd.args.dh, gap))]
+       ELSE p
+(* the band hook's verdict for this cycle, from the shadow *)
+ShB1(nd) == BandHook(Arrive([Sh(nd.parent).b EXCEPT !.rate = Sgn(nd)], nd.args.kind, Sgn(nd)), nd.args.gap)
 
 (* ghost window in limbs: positive samples since the last reset, last n kept *)
 RECURSIVE G(_)
@@ -41,20 +46,24 @@ G(i) ==
   LET nd == Nd(i) IN
   IF nd.a = "Init" THEN <<>>
   ELSE LET g == G(nd.parent)
-           w == [Age(Rec(nd.st.pre), nd.args.dh, nd.args.gap) EXCEPT !.d = ZAged(nd)]
+           p == Sh(nd.parent)
            n == nd.args.n
+           gap == nd.args.gap
        IN IF nd.st.panic THEN g
+          ELSE IF nd.a = "Reconfig" THEN <<>>
           ELSE IF nd.a = "Cycle" THEN
-               LET b1 == BandHook(Arrive(RecB(nd.st.preb), nd.args.kind, 1), nd.args.gap)
+               LET b1 == ShB1(nd)
+                   w0 == Age(p.w, 1, gap)
                    g1 == IF b1.dbool THEN <<>> ELSE g
-                   w1 == IF b1.dbool THEN GlobalDiscard(w) ELSE w
-                   base == IF w1.found /\ Pos(nd) /\ w1.d > 0 /\ w1.d >= nd.args.gap THEN <<>> ELSE g1
+                   w1 == IF b1.dbool THEN GlobalDiscard(w0) ELSE w0
+                   base == IF w1.found /\ Pos(nd) /\ w1.d > 0 /\ w1.d >= gap THEN <<>> ELSE g1
                IN IF ~b1.valid THEN g
                   ELSE IF b1.hasres /\ Pos(nd) THEN LastN(Append(base, nd.args.rL), n)
                   ELSE IF b1.hasres THEN base ELSE g1
           ELSE IF nd.a = "GlobalDiscard" THEN <<>>
           ELSE IF nd.a = "Invalidate" THEN g
-          ELSE LET base == IF w.found /\ Pos(nd) /\ w.d > 0 /\ w.d >= nd.args.gap THEN <<>> ELSE g
+          ELSE LET w == Age(p.w, nd.args.dh, gap)
+                   base == IF w.found /\ Pos(nd) /\ w.d > 0 /\ w.d >= gap THEN <<>> ELSE g
                IN IF Pos(nd) THEN LastN(Append(base, nd.args.rL), n) ELSE base
 
 InRun(nd) == nd.run \notin {"vec", "bandvec"}
@@ -83,7 +92,17 @@ ConfCycle(nd) ==
         /\ Rec(nd.st.w) = c.w
         /\ <<pb.flag, pb.valid, pb.temp, pb.last, pb.dh, pb.dbool, pb.hasres>> = <<c.b.flag, c.b.valid, c.b.temp, c.b.last, c.b.dh, c.b.dbool, c.b.hasres>>
 
+ConfReconfig(nd) ==
+  nd.a = "Reconfig" /\ ~nd.st.panic =>
+     /\ ~nd.st.w.found
+     /\ LET pb == nd.st.b c == Reconfig(RecB(nd.st.preb)) IN <<pb.flag, pb.dh, pb.dbool>> = <<c.flag, c.dh, c.dbool>>
+
 (* ---------------- C17 on recorded behaviours ---------------- *)
+(* a positive sample was taken in by the pipeline in this step (shadow verdict for a cadence block) *)
+TookPositive(nd) == Pos(nd) /\ ~nd.st.panic /\ (nd.a = "Sample" \/ (nd.a = "Cycle" /\ ShB1(nd).valid /\ ShB1(nd).hasres))
+(* "deactivates the price until fresh data arrives as configured": once fresh data has arrived and the window of the statement *)
+(* (positive samples since the last configured reset) is full, the price is published again                                   *)
+C17ActiveWhenFull(i) == LET nd == Nd(i) IN InRun(nd) /\ TookPositive(nd) /\ Len(G(i)) >= nd.args.n => nd.st.w.active
 C17NoPanic(nd)   == ~nd.st.panic
 C17OnlyFull(i)   == LET nd == Nd(i) IN InRun(nd) /\ nd.st.w.active => Len(G(i)) >= nd.args.n
 C17MeanExact(i)  == LET nd == Nd(i) g == G(i) n == nd.args.n IN
@@ -95,7 +114,7 @@ C17ZeroOff(nd)   == (nd.a = "Sample" \/ (nd.a = "Cycle" /\ nd.st.b.hasres /\ nd.
 C17Consumer(nd)  == (~nd.st.w.active => nd.st.calcErr /\ nd.st.getErr) /\ (nd.st.w.active /\ ~nd.st.panic => ~nd.st.calcErr)
 
 Formulas == <<"Conf_Sample", "Conf_Invalidate", "Conf_GlobalDiscard", "Conf_Cycle", "C17_NoPanic", "C17_OnlyFull",
-              "C17_MeanExact", "C17_InWindow", "C17_ZeroOff", "C17_Consumer">>
+              "C17_MeanExact", "C17_InWindow", "C17_ZeroOff", "C17_Consumer", "C17_ActiveWhenFull", "Conf_Reconfig">>
 Holds(f, i) ==
   LET nd == Nd(i) IN
   CASE f = "Conf_Sample" -> ConfSample(nd)
@@ -108,6 +127,8 @@ Holds(f, i) ==
     [] f = "C17_InWindow" -> C17InWindow(nd)
     [] f = "C17_ZeroOff" -> C17ZeroOff(nd)
     [] f = "C17_Consumer" -> C17Consumer(nd)
+    [] f = "C17_ActiveWhenFull" -> C17ActiveWhenFull(i)
+    [] f = "Conf_Reconfig" -> ConfReconfig(nd)
 
 (* The judge never stops TLC: every failing (formula, node) is printed and collected by bin/check. *)
 Judge == \A k \in 1..Len(Formulas) : Holds(Formulas[k], cur) \/ PrintT(<<"FAIL", Formulas[k], cur>>)
@@ -118,6 +139,8 @@ Stats == PrintT(<<"STATS", [nodes |-> NLog,
            zeroSamples |-> Cardinality({i \in 1..NLog : Nd(i).a = "Sample" /\ ~Pos(Nd(i))}),
            cycles |-> Cardinality({i \in 1..NLog : Nd(i).a = "Cycle"}),
            discards |-> Cardinality({i \in 1..NLog : Nd(i).a = "Cycle" /\ BandHook(Arrive(RecB(Nd(i).st.preb), Nd(i).args.kind, 1), Nd(i).args.gap).dbool}),
+           reconfigs |-> Cardinality({i \in 1..NLog : Nd(i).a = "Reconfig"}),
+           reactivations |-> Cardinality({i \in 1..NLog : InRun(Nd(i)) /\ TookPositive(Nd(i)) /\ Len(G(i)) >= Nd(i).args.n /\ ~Log[Nd(i).parent].st.w.active}),
            bigValues |-> Cardinality({i \in 1..NLog : ~Nd(i).st.w.small}),
            confChecked |-> Cardinality({i \in 1..NLog : SmallStep(Nd(i))}) ]>>)
 AllSeen == Stats /\ TLCGet("stats").distinct = NLog
